@@ -4,7 +4,7 @@ import json
 import vlib
 
 ASSUMPTIONS = [
-    "RpcNet.tla: one client, one server, link up / held / partitioned, lazy connection with 2 s connect timeout, optional 2 s request timeout, "
+    "RpcNet.tla: one client, one server, link up / held / partitioned, lazy connection with 2 s connect timeout, request timeouts of 500 ms and 2 s (shorter than / equal to the connect timeout; random schedules also 1 s and 3 s) or none, "
     "2-3 concurrent or sequential requests, up to 2-3 fault events, time in 500 ms ticks; exhaustive",
     "every external schedule of the model (fault events, sends with / without timeout, ticks), or a stride sample of them in the quick tier, is executed "
     "by a conductor task against the real RpcClient / Server inside a turmoil simulation (datacake-rpc feature `simulation`), fast handler and, for every "
@@ -18,7 +18,7 @@ ASSUMPTIONS = [
 
 def run(ctx):
     binary = vlib.build_harness(ctx, "h-sim")
-    consts = dict(Reqs={1, 2}, MaxFaults=2, MaxTicks=6) if ctx.tier == "quick" else dict(Reqs={1, 2, 3}, MaxFaults=2, MaxTicks=5)
+    consts = dict(Reqs={1, 2}, TmoTicks={0, 1, 4}, MaxFaults=2, MaxTicks=6) if ctx.tier == "quick" else dict(Reqs={1, 2, 3}, TmoTicks={0, 1, 4}, MaxFaults=2, MaxTicks=5)
     invs = ["C14_AtMostOnce", "C14_Outcome", "C14_ReplyMeansHandled", "C14_TimeoutBound", "C14_NoFaultNoFailure"]
     mc_cfg = vlib.cfg_text(constants=dict(consts, EmitSched=False), invariants=invs)
     mc, text = vlib.run_tlc(ctx, "RpcNet", mc_cfg, "mc", workers=8, timeout=3000, xmx="10g")
